@@ -530,36 +530,7 @@ func (c *V1) Do(op Op) (out Outcome) {
 		}
 		return o
 	case OpUpdateTable:
-		in := &v1ddb.UpdateTableInput{TableName: aws.String(op.Table)}
-		ad := &attrDefs{}
-		for _, ch := range op.Chg {
-			u := &v1ddb.GlobalSecondaryIndexUpdate{}
-			if ch.Create != nil {
-				if !op.NoDefs {
-					ad.add(ch.Create.Hash, ch.Create.HashT)
-					ad.add(ch.Create.Range, ch.Create.RangeT)
-				}
-				u.Create = &v1ddb.CreateGlobalSecondaryIndexAction{IndexName: strp(ch.Create.Name),
-					KeySchema:  v1KeySchema(ch.Create.Hash, ch.Create.Range),
-					Projection: v1Projection(*ch.Create), ProvisionedThroughput: v1Throughput()}
-			}
-			if ch.DeleteUnnamed {
-				u.Delete = &v1ddb.DeleteGlobalSecondaryIndexAction{}
-			}
-			if ch.Delete != "" {
-				u.Delete = &v1ddb.DeleteGlobalSecondaryIndexAction{IndexName: aws.String(ch.Delete)}
-			}
-			if ch.Update != "" {
-				u.Update = &v1ddb.UpdateGlobalSecondaryIndexAction{IndexName: aws.String(ch.Update), ProvisionedThroughput: v1Throughput()}
-			}
-			in.GlobalSecondaryIndexUpdates = append(in.GlobalSecondaryIndexUpdates, u)
-		}
-		for _, d := range op.Defs {
-			ad.add(d[0], d[1])
-		}
-		for _, n := range ad.order {
-			in.AttributeDefinitions = append(in.AttributeDefinitions, &v1ddb.AttributeDefinition{AttributeName: aws.String(n), AttributeType: aws.String(ad.typ[n])})
-		}
+		in := v1UpdateInput(op)
 		res, err := c.callUpdateTable(in)
 		o := fin(err)
 		if err == nil && res != nil {
@@ -712,4 +683,47 @@ func itemV1(op Op, it val.Item) map[string]*v1ddb.AttributeValue {
 		m[k] = share(m[k])
 	}
 	return m
+}
+
+// V1UpdateInput builds the UpdateTableInput of an OpUpdateTable.
+func V1UpdateInput(op Op) *v1ddb.UpdateTableInput { return v1UpdateInput(op) }
+
+func v1UpdateInput(op Op) *v1ddb.UpdateTableInput {
+	in := &v1ddb.UpdateTableInput{TableName: aws.String(op.Table)}
+	ad := &attrDefs{}
+	for _, ch := range op.Chg {
+		u := &v1ddb.GlobalSecondaryIndexUpdate{}
+		if ch.Create != nil {
+			if !op.NoDefs {
+				ad.add(ch.Create.Hash, ch.Create.HashT)
+				ad.add(ch.Create.Range, ch.Create.RangeT)
+			}
+			u.Create = &v1ddb.CreateGlobalSecondaryIndexAction{IndexName: strp(ch.Create.Name),
+				KeySchema:  v1KeySchema(ch.Create.Hash, ch.Create.Range),
+				Projection: v1Projection(*ch.Create), ProvisionedThroughput: v1Throughput()}
+			if op.NoThroughput {
+				u.Create.ProvisionedThroughput = nil
+			}
+		}
+		if ch.DeleteUnnamed {
+			u.Delete = &v1ddb.DeleteGlobalSecondaryIndexAction{}
+		}
+		if ch.Delete != "" {
+			u.Delete = &v1ddb.DeleteGlobalSecondaryIndexAction{IndexName: aws.String(ch.Delete)}
+		}
+		if ch.Update != "" {
+			u.Update = &v1ddb.UpdateGlobalSecondaryIndexAction{IndexName: aws.String(ch.Update), ProvisionedThroughput: v1Throughput()}
+		}
+		in.GlobalSecondaryIndexUpdates = append(in.GlobalSecondaryIndexUpdates, u)
+	}
+	for _, d := range op.Defs {
+		ad.add(d[0], d[1])
+	}
+	for _, n := range ad.order {
+		in.AttributeDefinitions = append(in.AttributeDefinitions, &v1ddb.AttributeDefinition{AttributeName: aws.String(n), AttributeType: aws.String(ad.typ[n])})
+	}
+	if op.Billing != "" {
+		in.BillingMode = aws.String(op.Billing)
+	}
+	return in
 }
